@@ -388,13 +388,15 @@ func (w *Walker) walk(b, pred *ssa.BasicBlock, p *PState) {
 			if x.Op == token.MUL {
 				w.doLoad(p, x)
 			}
-		case *ssa.Call:
-			w.invalidateForCall(p, x)
 		case *ssa.Defer:
 			// deferred calls run at exit; conservatively nothing here
 		}
 		if w.Instr != nil && !w.Instr(p, ins) {
 			return
+		}
+		if call, ok := ins.(*ssa.Call); ok {
+			// the client saw the state before the call; now forget what the callee may change
+			w.invalidateForCall(p, call)
 		}
 		switch x := ins.(type) {
 		case *ssa.If:
